@@ -101,6 +101,10 @@ Section CliPool.
     exists s', step (worker_blocks o lib) cap s s'.
   Proof. intros s Hn Hc R NT. exact (progress _ _ (worker_blocks o lib) cap (producer io t) n s Hn Hc R NT). Qed.
 
+  Theorem cli_completes : forall s, (0 < n)%nat -> (0 < cap)%nat -> cli_reachable s ->
+    exists k s', run _ _ (worker_blocks o lib) cap k s s' /\ terminal s'.
+  Proof. intros s Hn Hc R. exact (completes _ _ (worker_blocks o lib) cap (producer io t) n s Hn Hc R). Qed.
+
   Theorem cli_run_bounded : forall k s s', run _ _ (worker_blocks o lib) cap k s s' ->
     (k + measure (worker_blocks o lib) s' <= measure (worker_blocks o lib) s)%nat.
   Proof. intros. eapply run_bounded; eauto. Qed.
